@@ -25,6 +25,7 @@ type Config struct {
 	Solver        string        // incremental solver kind
 	Concrete      map[string][]uint64 // concrete assignment (translator validation mode); nil = symbolic
 	Trace         bool
+	Witnesses     int // number of completed paths for which a witness model is kept
 	Thorough      bool
 	ScriptDir     string // where standalone obligation scripts are written
 	TagTimeout    time.Duration
@@ -109,6 +110,7 @@ type HarnessResult struct {
 	Cuts          map[string]int
 	SolverRestarts int
 	Summaries     map[string]int
+	Witnesses     []map[string][]uint64 // models of completed paths (inputs for translator validation)
 	InputNames    map[string]int // nondet variable name -> width (0 = bool), over all paths
 }
 
@@ -917,6 +919,21 @@ func (e *Engine) runPath(fn *ssa.Function) {
 		}
 	}()
 	e.call(fn, nil, nil)
+	// a completed path: keep a model of its path condition as a concrete witness input
+	if e.solver != nil && !e.concreteMode() && len(e.res.Witnesses) < e.cfg.Witnesses && len(e.inputs) > 0 {
+		e.solver.SetTimeout(3000)
+		m := e.diversify(e.ts.True)
+		if m == nil {
+			var r Result
+			r, m = e.checkModel(e.inputs)
+			if r != Sat {
+				m = nil
+			}
+		}
+		if m != nil {
+			e.res.Witnesses = append(e.res.Witnesses, e.modelToAssignment(m))
+		}
+	}
 }
 
 // FuncList returns the sorted list of functions symbolically executed.
